@@ -83,7 +83,7 @@ func suiteFidelity(c c15Case) (obs, bad string) {
 		return obs, "configuration differs from what the string says: " + d
 	}
 	if verr := su.Validate(); verr != nil {
-		return obs, "instantiated suite does not validate: " + verr.Error()
+		return obs, "instantiated suite does not validate: " + errText(verr)
 	}
 	if known {
 		fr := shapeOfLib(fromRaws)
